@@ -24,7 +24,9 @@ CLAIM = {
             "when the colours fit; the dithering arithmetic.",
     "technique": "path-sensitive symbolic evaluation of loop-free MIR regions (sa/sympath.py) + template rules on the resulting terms and facts + CFG dominance/loop rules + who-writes "
                  "scans + abstract interpretation with structurally checked lemmas; small single-caller helpers outside the mechanism's named functions are expanded in place before a "
-                 "body is evaluated, and site-level lemmas are filed under the statement's own function",
+                 "body is evaluated, and site-level lemmas are filed under the statement's own function; the compositing helper is recognised by what it computes (any two-argument "
+                 "function returning bg.blend_over(c) iff alpha(c) < 255), not by its name or place; Option/bool combinator chains (map, filter, unwrap_or, map_or, and_then, then_some, ..) "
+                 "in the k-d search are evaluated by their definition with the closure bodies in place, i.e. as the match they stand for",
     "design_ref": "DESIGN.md §5 C13",
 }
 
@@ -62,6 +64,32 @@ def in_vocab(path):
     return not path.startswith("image::") or VOCAB.match(path) is not None
 
 
+def blend_fn_check(prog, path):
+    """(ok, problems, returned terms) of the question: is `path` a two-argument function f(bg, colour) that returns bg.blend_over(colour) exactly when
+    alpha(colour) < 255 and the colour itself otherwise -- the compositing helper of the mechanism, whatever it is called and wherever it is
+    written (nested in from_image, a module-level fn, an associated fn); None when it is not a loop-free two-argument crate function at all"""
+    cache = prog.__dict__.setdefault("_c13_blend", {})
+    if path in cache:
+        return cache[path]
+    cache[path] = None
+    b = prog.body(path)
+    if b is not None and b.arg_count == 2 and not b.closure_root and b.kind in ("Fn", "AssocFn") and len(b.blocks) <= 40:
+        try:
+            ps = [p for p in evaluator(b).paths(0, ()) if p.end[0] not in ("infeasible", "unreachable") and not panics(b, p)]
+        except TooManyPaths:
+            ps = None
+        if ps and all(p.end[0] == "return" and p.ret is not None for p in ps):
+            probs = [blend_problem(p, p.ret, ("arg", 2), ("arg", 1)) for p in ps]
+            kinds = {("blend" if is_call(p.ret, r"::blend_over$") else "plain") for p in ps}
+            cache[path] = (not any(probs) and kinds == {"blend", "plain"}, [x for x in probs if x] or sorted(kinds), [show(p.ret)[:80] for p in ps])
+    return cache[path]
+
+
+def is_blend_fn(prog, path):
+    r = blend_fn_check(prog, path)
+    return bool(r and r[0])
+
+
 def expand(prog, path, depth=_inline.MAX_DEPTH):
     """Body of `path` with every inlinable helper outside VOCAB expanded in place (same transformation as sa/inline.py; blocks that
     come from a helper carry `inl_from` = its path and `inl_bb` = their block number there).  The plain body when there is none."""
@@ -86,7 +114,7 @@ def expand(prog, path, depth=_inline.MAX_DEPTH):
         f = t["fn"]
         cpath = f.get("resolved") if f.get("resolved_local") else (f.get("path") if f.get("local") else None)
         callee = prog.body(cpath) if cpath else None
-        if callee is None or in_vocab(callee.path) or len(t["args"]) != callee.arg_count or not _inline.inlinable(prog, callee, root):
+        if callee is None or in_vocab(callee.path) or is_blend_fn(prog, callee.path) or len(t["args"]) != callee.arg_count or not _inline.inlinable(prog, callee, root):
             continue
         if j is None:
             j = copy.deepcopy(base.j)
@@ -130,7 +158,7 @@ def owner(prog, path):
         if b is None:
             return path
         root = b.closure_root or b.path
-        if in_vocab(root):
+        if in_vocab(root) or is_blend_fn(prog, root):
             return root
         callers = set()
         for c in prog.callgraph().callers(root):
@@ -221,9 +249,10 @@ def mut_arg(c, pred):
     return any(pred(a) and i < len(tys) and re.match(r"^&('\w+ )?mut ", tys[i]) for i, a in enumerate(c.args))
 
 
-def paths_of(ctx, rule, body, start=0, stop=()):
-    """returning paths of a loop-free body/region; anchors (fail closed) when the region is not loop free"""
-    ev = evaluator(body)
+def paths_of(ctx, rule, body, start=0, stop=(), combinators=False):
+    """returning paths of a loop-free body/region; anchors (fail closed) when the region is not loop free.
+    combinators: Option / bool combinator chains are evaluated by their definition (sa/sympath.py), i.e. like the `match` they stand for"""
+    ev = evaluator(body, combinators=combinators)
     try:
         ps = ev.paths(start, stop)
     except TooManyPaths:
@@ -323,8 +352,13 @@ def alpha_of(s):
     return m
 
 
-def blend_problem(p, value, src, bg):
-    """None when on path p `value` is the composited source colour: blend_over(bg, src) exactly when alpha(src) < 255, src otherwise"""
+def blend_problem(p, value, src, bg, prog=None):
+    """None when on path p `value` is the composited source colour: blend_over(bg, src) exactly when alpha(src) < 255, src otherwise
+    (written out on the path, or as a call helper(bg, src) of a function that blend_fn_check found to be exactly that)"""
+    if prog is not None and isinstance(value, tuple) and value[0] == "call" and len(value[2]) == 2 and is_blend_fn(prog, value[1]):
+        if strip(value[2][0]) == strip(bg) and strip(value[2][1]) == strip(src):
+            return None
+        return "the compositing helper is called with (%s, %s) instead of (bg, pixel)" % (show(value[2][0])[:60], show(value[2][1])[:60])
     al = alpha_of(src)
     lows = [f for f in p.facts if f[0] == "lt" and al(f[1]) and f[2] == ("c", "255")]
     highs = [f for f in p.facts if f[0] == "lt" and f[1] == ("c", "254") and al(f[2])]
@@ -357,7 +391,7 @@ def run(ctx):
     ctx.assume("PIXEL-COUNT: the image has fewer than 2^48 pixels, so sums of 8-bit channel values and of leaf/colour counts over all pixels fit in usize")
 
     bodies = {}
-    for p in (QUANT, PAL_NEW, PAL_FROM, PAL_FIND, BLEND, KD_NEW, KD_BUILD, KD_FIND, KD_REC, KD_DIST, OC_PRUNE_UNTIL, OC_BUILD, OC_BUILD_REC):
+    for p in (QUANT, PAL_NEW, PAL_FROM, PAL_FIND, KD_NEW, KD_BUILD, KD_FIND, KD_REC, KD_DIST, OC_PRUNE_UNTIL, OC_BUILD, OC_BUILD_REC):
         b = expand(prog, p)
         if b is None and p != KD_DIST:      # the metric may be written out in find_rec itself
             ctx.rule("ANCHORS", "functions named by the property's mechanism exist", floor=0)
@@ -703,16 +737,17 @@ def blend_agree(ctx, bodies, q):
     R = "BLEND-AGREE"
     ctx.rule(R, "from_image and quantize replace a colour by bg.blend_over(colour) exactly when alpha < 255, with the same bg (default opaque black)", floor=5)
     prog = ctx.prog
-    # 1 the helper
-    bl = bodies[BLEND]
-    ev, ps = paths_of(ctx, R, bl)
-    if ps is not None:
-        probs = [blend_problem(p, p.ret, ("arg", 2), ("arg", 1)) for p in ps if p.ret is not None]
-        kinds = {("blend" if is_call(p.ret, r"::blend_over$") else "plain") for p in ps if p.ret is not None}
-        ok = not any(probs) and kinds == {"blend", "plain"}
-        ctx.instance(R, {"from_image::blend": [show(p.ret)[:80] for p in ps], "is_blend_over_iff_alpha_lt_255": ok})
-        if not ok:
-            ctx.violation(R, BLEND, "blend-fn", "palette extraction does not composite exactly the pixels with alpha < 255: %s" % ([x for x in probs if x] or sorted(kinds)), sites=[bl.loc])
+    # 1 the helper: whichever crate function the fill sites of from_image call with (bg, pixel) -- decided on what it computes (below, after the sites)
+    helpers = []
+
+    def helper_call(v):
+        """v is a call f(a, b) of a two-argument function of this crate (its meaning is decided by blend_fn_check)"""
+        hb = prog.body(v[1]) if isinstance(v, tuple) and v[0] == "call" and len(v[2]) == 2 else None
+        if hb is None or hb.arg_count != 2 or hb.closure_root:
+            return False
+        if v[1] not in helpers:
+            helpers.append(v[1])
+        return True
     # 2 every colour inserted by from_image is blend(bg, pixel of img)
     fi = bodies[PAL_FROM]
     ev = evaluator(fi)
@@ -734,7 +769,7 @@ def blend_agree(ctx, bodies, q):
         if call_matches(t, r"^image::OcTree::insert$"):
             sites += 1
             v = ev.operand(t["args"][1], None)
-            ok = is_call(v, r"^image::ColorPalette::from_image::blend$") and v[2][0] == bg and pixel(v[2][1])
+            ok = helper_call(v) and v[2][0] == bg and pixel(v[2][1])
             ctx.instance(R, {"from_image_inserts": show(v)[:160], "is_blend(bg, pixel)": bool(ok)})
             if not ok:
                 ctx.violation(R, PAL_FROM, "insert-site", "a colour is inserted into the octree without blend(bg, pixel): %s" % show(v)[:200], sites=["%s:%d" % (fi.file, t["line"])])
@@ -749,7 +784,7 @@ def blend_agree(ctx, bodies, q):
                 ok = bool(cps)
                 for cp in cps or []:
                     r = strip(cp.ret) if cp.ret is not None else None
-                    good = r is not None and is_call(r, r"^image::ColorPalette::from_image::blend$") and r[2][1] == ("arg", 2) and r[2][0][0] == "f" and r[2][0][1] == ("arg", 1)
+                    good = r is not None and helper_call(r) and r[2][1] == ("arg", 2) and r[2][0][0] == "f" and r[2][0][1] == ("arg", 1)
                     if good:
                         i = int(r[2][0][2]) if r[2][0][2].isdigit() else -1
                         good = 0 <= i < len(up) and up[i] == bg
@@ -764,6 +799,15 @@ def blend_agree(ctx, bodies, q):
             ctx.violation(R, PAL_FROM, "unknown-fill", "the octree is filled through %s, which the rule does not understand" % (t["fn"].get("resolved") or t["fn"].get("path")), sites=["%s:%d" % (fi.file, t["line"])])
     if sites < 2:
         ctx.anchor(R, "from_image/fill-sites", "fewer than two octree fill sites (collect / insert) found in from_image")
+    for h in helpers:
+        chk = blend_fn_check(prog, h)
+        ok = bool(chk and chk[0])
+        ctx.instance(R, {"compositing_helper": h, "returns": chk[2] if chk else None, "is_blend_over_iff_alpha_lt_255": ok})
+        if not ok:
+            ctx.violation(R, h, "blend-fn", "palette extraction does not composite exactly the pixels with alpha < 255: %s" % (chk[1] if chk else "not a loop-free function the rule understands"),
+                          sites=[prog.body(h).loc])
+    if not helpers:
+        ctx.anchor(R, "from_image/blend-helper", "no fill site of from_image hands helper(bg, pixel) to the octree")
     # 3 quantize
     if not q.get("ok"):
         ctx.anchor(R, "quantize-shape")
@@ -803,12 +847,17 @@ def blend_agree(ctx, bodies, q):
             probs.append("pixel source or looked-up colour not understood")
             continue
         src = ([s_ for s_ in srcs if contains(v[1], s_)] or srcs)[0]
-        pr = blend_problem(p, v[1], src, qbg)
+        pr = blend_problem(p, v[1], src, qbg, prog)
         if pr:
             probs.append(pr)
     ok = bool(q["paths"]) and not probs
-    kinds = {("blend" if is_call((mapped_colour(p, q) or (None, None))[1], r"::blend_over$") else "plain") for p in q["paths"]}
-    ok = ok and kinds == {"blend", "plain"}
+
+    def kind(t):
+        if isinstance(t, tuple) and t[0] == "call" and is_blend_fn(prog, t[1]):
+            return "helper"         # both cases, decided inside the verified helper
+        return "blend" if is_call(t, r"::blend_over$") else "plain"
+    kinds = {kind((mapped_colour(p, q) or (None, None))[1]) for p in q["paths"]}
+    ok = ok and kinds in ({"blend", "plain"}, {"helper"})
     ctx.instance(R, {"quantize_pixel_paths": len(q["paths"]), "mapped_colour_is_blend_over(bg, pixel)_iff_alpha_lt_255_with_from_image's_bg": ok})
     if not ok:
         ctx.violation(R, QUANT, "quantize-site", "pixel mapping does not composite like palette extraction (same bg, exactly the pixels with alpha < 255): %s" % (probs[:2] or sorted(kinds)), sites=[b.loc])
@@ -993,7 +1042,7 @@ def nearest_shape(ctx, bodies):
 
     # ---- search ------------------------------------------------------------------------------------------------
     fr = bodies[KD_REC]
-    ev, ps = paths_of(ctx, R, fr)
+    ev, ps = paths_of(ctx, R, fr, combinators=True)
     if ps is None:
         return kd
     nodes, idx, target = ("arg", 1), ("arg", 2), ("arg", 3)
@@ -1051,7 +1100,7 @@ def nearest_shape(ctx, bodies):
         recs = [c for c in p.calls if c.matches(r"^image::KDTree::find::find_rec$")]
         # predicates and lengths computed without `&mut` arguments (conditions of assertions) are neither candidates nor (i32) distances
         others = [c for c in p.calls if not c.matches(r"^image::KDTree::find::(find_rec|dist)$|::pow$")
-                  and not (fr.local_ty(c.t["dest"]["l"]) in ("bool", "usize") and not c.t["dest"]["p"] and not mut_arg(c, lambda a: True))]
+                  and not ((c.body or fr).local_ty(c.t["dest"]["l"]) in ("bool", "usize") and not c.t["dest"]["p"] and not mut_arg(c, lambda a: True))]
         if others:
             report("calls", "find_rec calls %s, which the rule does not understand" % others[0].name)
         cands = [(N, d) for d in node_dists(p)]
@@ -1632,8 +1681,19 @@ def total(ctx, bodies, q, kd):
         idxs = [(bb, t) for bb, t in touching if call_matches(t, r"Index<I>>::index$|IndexMut<I>>::index_mut$")]
         # the two rows taken apart as slices: errors.split_at_mut(ewidth) (halves cannot change the vector's length)
         splits = [(bb, t) for bb, t in touching if call_matches(t, r"slice::<impl \[T\]>::split_at(_mut)?$") and ev.operand(t["args"][0], None) == E]
-        other = [(bb, t) for bb, t in touching if (bb, t) not in rs and (bb, t) not in idxs and (bb, t) not in splits
-                 and not call_matches(t, r"Deref>::deref$|DerefMut>::deref_mut$|^std::ops::Deref(Mut)?::deref(_mut)?$")]      # Vec -> slice view (what is done with it is a call of its own)
+        # scalar indexing of the rows seen as a slice (`errors[i]` behind `&mut [ColorError]`, e.g. in a helper that received `&mut errors`): bounds-checked
+        # against the slice length = the vector's length
+        sl_idx = [(x, blk["term"]) for x, blk in enumerate(b.blocks) if not blk["cleanup"] and blk["term"]["k"] == "assert" and blk["term"]["msg"].get("kind") == "BoundsCheck"
+                  and ev.operand(blk["term"]["msg"]["len"], None) == ("un", "PtrMetadata", E)]
+        # calls that cannot change the vector's length: the Vec -> slice view (what is done with it is a call of its own), every slice method (a `&mut [T]` cannot
+        # grow or shrink: copy_within, fill, swap, rotate_*, iter_mut, ..), and calls that get the vector by shared reference only (len, is_empty, iter, ..)
+        def length_preserving(t):
+            if call_matches(t, r"Deref>::deref$|DerefMut>::deref_mut$|^std::ops::Deref(Mut)?::deref(_mut)?$|^core::slice::<impl \[T\]>::\w+$"):
+                return True
+            tys = t.get("arg_tys", [])
+            return all(i < len(tys) and re.match(r"^&(?!('\w+ )?mut )", tys[i]) for i, a in enumerate(t["args"]) if ev.operand(a, None) == E)
+        moves = [(bb, t) for bb, t in touching if call_matches(t, r"^core::slice::<impl \[T\]>::copy_within$") and ev.operand(t["args"][0], None) == E]
+        other = [(bb, t) for bb, t in touching if (bb, t) not in rs and (bb, t) not in idxs and (bb, t) not in splits and not length_preserving(t)]
         ew = None
         ok_rs = False
         if len(rs) == 1 and not other and is_call(E, r"Vec::<T>::new$|Vec::<T>::with_capacity$"):
@@ -1648,7 +1708,7 @@ def total(ctx, bodies, q, kd):
             cfg = b.cfg()
             # with the dither == false edges removed (the flag never changes), every access is reachable only through the resize
             off = set(flag_edges(b, ev, ("arg", 3))[1])
-            ok_dom = bool(off) and all(_only_through(cfg, rs[0][0], bb, off) for bb, t in idxs + splits) and not any(rs[0][0] in lp["body"] for lp in q["loops"])
+            ok_dom = bool(off) and all(_only_through(cfg, rs[0][0], bb, off) for bb, t in idxs + splits + sl_idx + moves) and not any(rs[0][0] in lp["body"] for lp in q["loops"])
             ok_rs = ok_ew and ok_dom
             ctx.instance(R, {"resize": show(n)[:100], "ewidth": show(ew)[:80] if ew else None, "is_2*(width+2)": bool(ok_ew), "every_access_preceded_by_resize": ok_dom})
         else:
@@ -1657,12 +1717,48 @@ def total(ctx, bodies, q, kd):
             ctx.violation(R, QUANT, "resize", "the error rows are not (only) resized to 2 * (self.width() + 2) before use", sites=[b.loc])
         loops_by_item = [(lp["item"], range_of(lp["iter"])[1]) for lp in q["loops"] if lp["iter"] and range_of(lp["iter"]) and strip(range_of(lp["iter"])[0]) == ("c", "0")]
         guarded = clean("DITHER-GUARD")
-        for bb, t in idxs:
-            it = ev.operand(t["args"][1], None)
+        def range_max(rg):
+            """(largest value of the end of a usize range term over the rows, number of elements it can cover at most); None when not understood.
+            `s..` / `..e` / `0..e` / `..=e`: in bounds iff s <= len resp. e (+1) <= len"""
+            if not (isinstance(rg, tuple) and rg[0] == "agg" and rg[1].startswith("std::ops::Range")):
+                return None
+            kind, fs = rg[1].split("::")[-1], rg[3]
+            if kind == "RangeFull":
+                return (0, 0)
+            if kind == "RangeFrom" and len(fs) == 1:
+                return linear_max(fs[0], loops_by_item, ew, width)
+            if kind == "RangeTo" and len(fs) == 1 or (kind == "Range" and len(fs) == 2 and const_int(fs[0]) == 0):
+                return linear_max(fs[-1], loops_by_item, ew, width)
+            if kind == "RangeToInclusive" and len(fs) == 1:
+                m = linear_max(fs[0], loops_by_item, ew, width)
+                return (m[0], m[1] + 1) if m else None
+            return None
+        for bb, t in idxs + sl_idx:
+            it = ev.operand(t["args"][1], None) if t["k"] == "call" else ev.operand(t["msg"]["index"], None)
+            if isinstance(it, tuple) and it[0] == "agg" and ew:
+                # `errors[s..]`, `errors[..e]`: the bound may equal the length
+                lm = range_max(it)
+                ok = ok_rs and lm is not None and (lm[0], lm[1]) <= (2, 4) and lm[0] <= 2 and lm[1] <= 4 and guarded
+                ctx.instance(R, {"range_index": show(it)[:160], "max_bound_as_(coef_of_width, const)": lm, "at_most_2*width+4": bool(ok)})
+                sites.vote(b, bb, ok, ("ERR-ROWS", "range bound <= %d*width%+d <= 2*(width+2) == errors.len() (resized under the same `dither` flag that guards the access)" % (lm or (0, 0))))
+                continue
             lm = linear_max(it, loops_by_item, ew, width) if ew else None
             ok = ok_rs and lm is not None and lm[0] <= 2 and lm[1] <= 3 and guarded
             ctx.instance(R, {"index": show(it)[:160], "max_as_(coef_of_width, const)": lm, "below_2*width+4": bool(ok)})
             sites.vote(b, bb, ok, ("ERR-ROWS", "index <= %d*width%+d <= 2*width+3 < 2*(width+2) == errors.len() (resized under the same `dither` flag that guards the access)" % (lm or (0, 0))))
+        for bb, t in moves:
+            # errors.copy_within(src, dest): src within the rows and dest + src.len() <= errors.len(); decided for `s..` with dest <= s (moves towards the front)
+            src, dest = ev.operand(t["args"][1], None), ev.operand(t["args"][2], None)
+            lm = range_max(src) if ew else None
+            kind = src[1].split("::")[-1] if isinstance(src, tuple) and src[0] == "agg" else None
+            if kind == "RangeFrom":
+                fits = const_int(dest) == 0 or strip(dest) == strip(src[3][0])
+            else:       # `..e` / `0..e` / `..=e`: e elements land at dest.. : dest + e <= len
+                dm = linear_max(dest, loops_by_item, ew, width) if ew else None
+                fits = lm is not None and dm is not None and lm[0] + dm[0] <= 2 and lm[1] + dm[1] <= 4
+            ok = bool(ok_rs and lm is not None and lm[0] <= 2 and lm[1] <= 4 and fits and guarded)
+            ctx.instance(R, {"copy_within": "%s -> %s" % (show(src)[:100], show(dest)[:60]), "source_and_destination_inside_the_rows": ok})
+            sites.vote(b, bb, ok, ("ERR-ROWS", "source range bound <= 2*(width+2) == errors.len() and the copied elements end at or before errors.len() (resized under the same `dither` flag)"))
         halves = []
         for bb, t in splits:
             mid = ev.operand(t["args"][1], None)
